@@ -204,18 +204,22 @@ class DictObj:
 
 class InstObj:
     kind = 'inst'
-    __slots__ = ('cls', 'attrs', 'shared', 'origin')
+    __slots__ = ('cls', 'attrs', 'shared', 'origin', 'open')
 
-    def __init__(self, cls, attrs=(), shared=False, origin=None):
+    def __init__(self, cls, attrs=(), shared=False, origin=None,
+                 open_=False):
         self.cls = cls
         self.attrs = dict(attrs)
         self.shared = shared
         self.origin = origin
+        # an "open" instance stands for an arbitrary caller-owned object:
+        # attributes the analysis did not give it may or may not exist
+        self.open = open_
 
     def set(self, name, v):
         a = dict(self.attrs)
         a[name] = v
-        return InstObj(self.cls, a, self.shared, self.origin)
+        return InstObj(self.cls, a, self.shared, self.origin, self.open)
 
     def same(self, o):
         return isinstance(o, InstObj) and o.cls is self.cls and \
@@ -627,7 +631,17 @@ class Interp:
             if i < len(args):
                 env[p] = args[i]
             elif p in kwargs:
-                env[p] = kwargs.pop(p)
+                v_ = kwargs.pop(p)
+                di = i - (nparams - ndef)
+                if isinstance(v_, Sym) and v_.op == 'cond' and (
+                        v_.args[1] is ABSENT or v_.args[2] is ABSENT) \
+                        and di >= 0:
+                    dflt_ = self.eval_default(fi, defaults[di])
+                    v_ = self.join_value(
+                        v_.args[0],
+                        dflt_ if v_.args[1] is ABSENT else v_.args[1],
+                        dflt_ if v_.args[2] is ABSENT else v_.args[2])
+                env[p] = v_
             else:
                 di = i - (nparams - ndef)
                 if di >= 0:
@@ -890,7 +904,7 @@ class Interp:
                                        if k not in o1.attrs]:
                 attrs[k] = self.join_value(g, o1.attrs.get(k, ABSENT),
                                            o2.attrs.get(k, ABSENT))
-            return InstObj(o1.cls, attrs, o1.shared, o1.origin)
+            return InstObj(o1.cls, attrs, o1.shared, o1.origin, o1.open)
         raise Unsupported('join of incompatible heap objects')
 
     # -- statements ---------------------------------------------------------
@@ -1794,6 +1808,8 @@ class Interp:
         if isinstance(base, ClassInfo):
             v = self.class_attr(base, name)
             if v is ABSENT:
+                if name == '__subclasses__':
+                    return LibMethod(base, name)
                 if name == '__name__':
                     return base.node.name
                 if name == '__class__':
@@ -1822,6 +1838,19 @@ class Interp:
                 if name == '__class__':
                     return o.cls
                 v = self.class_attr(o.cls, name)
+                if v is ABSENT and o.open and not (
+                        name.startswith('__') and name.endswith('__')):
+                    # unknown extra attribute of a caller-owned object
+                    has = Sym('hasattr', Sym('obj', base.id), name)
+                    fv = Sym('field', name)
+                    if default is not ABSENT:
+                        return self.join_value(has, fv, default)
+                    self.raise_pending(
+                        state, Ext('builtins.AttributeError'), node,
+                        'attribute %s may be unset' % name,
+                        cond=T.not_(has))
+                    state.kn.assume(has)
+                    return fv
                 if v is ABSENT:
                     if name == '__dict__':
                         return Sym('instdict', base)
@@ -1978,7 +2007,22 @@ class Interp:
         kwargs = {}
         for k in node.keywords:
             if k.arg is None:
-                raise Unsupported('**kwargs at ' + self.site(node))
+                dv = self.eval(k.value, state, frame)
+                ok_ = False
+                if isinstance(dv, Ref):
+                    ob_ = self.obj(state, dv)
+                    if isinstance(ob_, DictObj) and all(
+                            isinstance(kk, str) for kk, _ in ob_.items):
+                        # keys that are only conditionally present carry a
+                        # cond(g, v, ABSENT) value; bind_args substitutes
+                        # the parameter default for the ABSENT arm
+                        for kk, vv in ob_.items:
+                            kwargs[kk] = vv
+                        ok_ = True
+                if not ok_:
+                    raise Unsupported('**kwargs with a non-literal mapping '
+                                      'at ' + self.site(node))
+                continue
             kwargs[k.arg] = self.eval(k.value, state, frame)
         return self.call_value(callee, args, kwargs, state, node)
 
